@@ -17,7 +17,7 @@ Import ListNotations.
 From BB Require Import BN Brute SpaceFacts TrapFacts PercolateFacts AttractorFacts Diagram Invariants Checks Filter
   Strict PetriNet Control Meta FilterFacts PetriNetFacts TrappistFacts DiagramStruct DiagramSem1 DiagramCache
   DiagramDepth DiagramComplete Termination ControlFacts MetaFacts Candidates StrictFacts MinExpandFacts CandidatesFacts SymbolicTest SymbolicTestFacts Signed ReductionFacts ControlFacts2 Main Blocks BlocksFacts ObsFacts OwnerFacts CandidatesTerm
-  PartialOwner BlockMath BlockComplete ASeeds ASeedsFacts LogChecks SkipRule SkipRuleFacts Names NamesFacts Perm PermFacts SCC SCCFacts SCCStruct ControlFacts3 SCCTerm FilterSym.
+  PartialOwner BlockMath BlockComplete ASeeds ASeedsFacts LogChecks SkipRule SkipRuleFacts Names NamesFacts Perm PermFacts SCC SCCFacts SCCStruct ControlFacts3 SCCTerm FilterSym Main2 StrategyFacts ControlFacts4.
 
 Theorem C06_override_forces : forall (N : net) (S : space) (d m : list (option bool)), trap_space N S -> length d = nvars N -> length m = nvars N -> compatible d S -> subspace (percolate_b N (merge d S)) m = true -> forced (override N d) S m.
 Proof. exact override_forces. Qed.
@@ -51,6 +51,13 @@ Proof. exact target_expansion_TargetExpanded. Qed.
 Theorem C06_chain_follows_path : forall (N : net) (d : sd) (s : nat) (es : list edge) (succ : list space), PlainInv N d -> epath d 0 s es -> choice d es succ -> es <> [] -> last (chain N succ (top_space (nvars N))) [] = n_space (get d s).
 Proof. exact chain_follows_path. Qed.
 
+(* with skip_feedforward_successions the reported interventions are a subset, so the property still holds *)
+Theorem C06_skip_feedforward_sound : forall (N : net) (d : sd) (target : list (option bool)) (all_strategy : bool) (maxd : option nat) (forbidden : list nat) (b : bool) (succ : list space) (ctl : list (list space)), PlainInv N d -> length target = nvars N -> TargetExpanded target d -> In (succ, ctl, true) (succession_control_ff N d target all_strategy maxd forbidden b) -> let spaces := chain N succ (top_space (nvars N)) in length ctl = length succ /\ (forall i : nat, i < length succ -> trap_space N (nth i spaces []) /\ trap_space N (nth (S i) spaces []) /\ subspace (nth (S i) spaces []) (nth i spaces []) = true /\ nth i ctl [] <> [] /\ (forall drv : space, In drv (nth i ctl []) -> subspace (percolate_b N (merge drv (nth i spaces []))) (nth i succ []) = true /\ forced (override N drv) (nth i spaces []) (nth i succ []))) /\ intersect (last spaces []) target <> None /\ (forall M : space, min_trap N M -> subspace M (last spaces []) = true -> subspace M target = true).
+Proof. exact succession_control_ff_sound. Qed.
+
+Theorem C06_skip_feedforward_subset : forall (N : net) (d : sd) (target : space) (all_strategy : bool) (maxd : option nat) (forbidden : list nat) (b : bool) (x : list space * list (list space) * bool), In x (succession_control_ff N d target all_strategy maxd forbidden b) -> In x (succession_control N d target all_strategy maxd forbidden).
+Proof. exact succession_control_ff_incl. Qed.
+
 Print Assumptions C06_override_forces.
 Print Assumptions C06_override_forces_code.
 Print Assumptions C06_find_drivers_force.
@@ -60,3 +67,5 @@ Print Assumptions C06_percolation_of_trap_is_nested_trap.
 Print Assumptions C06_succession_control_sound.
 Print Assumptions C06_target_expansion_prepares.
 Print Assumptions C06_chain_follows_path.
+Print Assumptions C06_skip_feedforward_sound.
+Print Assumptions C06_skip_feedforward_subset.
